@@ -28,6 +28,56 @@ fn main() {
             let path = args.get(2).unwrap_or_else(|| usage());
             std::process::exit(xsim::report::replay(path))
         }
+        Some("docsig-probe") => {
+            install_panic_hook();
+            let (calls, unparsed, unsynth) = xsim::docsig::calls();
+            println!("calls={} unparsed={} unsynthesised={}", calls.len(), unparsed, unsynth);
+            let (mut ok, mut cerr, mut viol, mut errv, mut crash) = (0, 0, 0, 0, 0);
+            for c in &calls {
+                let mut sc = Scenario::standard(&xsim::docsig::program(&c.call), Limits::calibration());
+                sc.perms = [Some(true); 6];
+                sc.limits.search = Some(100_000);
+                sc.limits.ud_call = Some(200_000);
+                sc.limits.size = Some(50_000_000);
+                eprintln!("RUN {} :: {}", c.label, c.call);
+                match run_scenario(&sc) {
+                    Err(e) => { cerr += 1; if args.get(2).is_some() { println!("COMPILE {} :: {} :: {}", c.label, c.call, format!("{e:?}").chars().take(160).collect::<String>()); } }
+                    Ok(r) => match r.main_outcome() {
+                        Outcome::Value(_) => ok += 1,
+                        Outcome::Error(e) => { errv += 1; println!("ERRVAL {} :: {} :: {e}", c.label, c.call); }
+                        Outcome::Violation(v) => { viol += 1; println!("VIOL {} :: {} :: {v}", c.label, c.call); }
+                        o => { crash += 1; println!("CRASH {} :: {} :: {:?}", c.label, c.call, o); }
+                    },
+                }
+            }
+            println!("ok={ok} compile_errors={cerr} error_values={errv} violations={viol} crashes={crash}");
+        }
+        Some("docerr-probe") => {
+            install_panic_hook();
+            let (calls, _, _) = xsim::docsig::calls();
+            let (mut ok, mut bad, mut skip) = (0, 0, 0);
+            for c in &calls {
+                if xsim::docsig::ERROR_HANDLERS.contains(&c.name.as_str()) { skip += 1; continue; }
+                for i in 0..c.args.len() {
+                    let mut args = c.args.clone();
+                    args[i] = format!("if(false, {}, error(\"E{}\"))", c.args[i], i + 1);
+                    let call = format!("{}({})", c.name, args.join(", "));
+                    let text = format!("{}\nfn main()->str{{ get_error({call}).or(\"<value>\") }}\n", xsim::docsig::PRELUDE);
+                    let mut sc = Scenario::standard(&text, Limits::calibration());
+                    sc.perms = [Some(true); 6];
+                    sc.limits.search = Some(100_000);
+                    sc.limits.ud_call = Some(200_000);
+                    match run_scenario(&sc) {
+                        Err(_) => skip += 1,
+                        Ok(r) => {
+                            let want = Outcome::Value(format!("\"E{}\"", i + 1));
+                            if *r.main_outcome() == want { ok += 1 } else { bad += 1; println!("BAD {} arg{} :: {} :: {:?}", c.label, i + 1, call, r.main_outcome()); }
+                        }
+                    }
+                }
+            }
+            println!("ok={ok} bad={bad} skipped={skip}");
+        }
         Some("job") => {
             install_panic_hook();
             let spec: JobSpec = serde_json::from_str(args.get(2).unwrap_or_else(|| usage())).unwrap_or_else(|e| { eprintln!("{e}"); usage() });
